@@ -33,11 +33,13 @@ EXPLANATION = ("All label values are symbolic 32/64-bit terms; each path fixes t
 BOUNDS = {
     "quick": "uint32/uint64, 1-2 channels, block sizes from {1,2,3}^3 incl. non-cubic, chunk shapes smaller than / equal "
              "to / not divisible by the block; <= 2 blocks per channel and <= 8 voxels per block (bit widths 0,1,2,4), "
-             "all label values incl. > 2^32 and > 2^53 (64-bit symbols)",
+             "all label values incl. > 2^32 and > 2^53 (64-bit symbols); bit width 8 / 16 and the 4|8 and 8|16 width boundaries: "
+             "27-, 280-, 294- and 343-voxel blocks whose labels are fixed distinct values except 2 symbolic ones",
     "thorough": "as quick plus <= 4 blocks / <= 16 voxels per configuration, one 18..27-voxel block (width 8) with the "
-                "number of distinct labels forced >= 17, and more shapes",
+                "number of distinct labels forced >= 17, more shapes, 3 symbolic labels in the 343-voxel block, a two-block chunk "
+                "mixing widths, and bit width 32 (68921-voxel block, one symbolic label)",
 }
-OUTSIDE = ["bit width 32 (blocks with > 65536 distinct labels)", "bit width 16 with more than 3 symbolic labels per block "
+OUTSIDE = ["bit width 32 in the quick tier (thorough: one 68921-voxel block with a single symbolic label)", "bit widths 16/32 with more than 3 symbolic labels per block "
            "(the other labels of those 280-480-voxel blocks are fixed, pairwise distinct values; the symbolic labels range over a window "
            "holding 4 of the fixed labels: equal to one of them or in one of the 5 gaps)", "chunks with more than 4 blocks"]
 
@@ -96,6 +98,8 @@ def configs(tier, seed):
     out.append(_cfg("uint32", 1, (3, 3, 3), (3, 3, 3), concrete=25, distinct=16, cost=3, wall=2400, max_paths=2000))
     out.append(_cfg("uint64", 1, (3, 3, 3), (3, 3, 3), concrete=25, distinct=15, cost=3, wall=2400, max_paths=2000))
     if tier == "thorough":
+        # bit width 32: one 41x41x41 block (68921 voxels) with 68920 fixed distinct labels and one symbolic label (~16 min, 2 GB)
+        out.append(_cfg("uint32", 1, (41, 41, 41), (41, 41, 41), concrete=68920, cost=60, wall=3000, max_paths=50, timeout_ms=300000))
         # two 8x8x5 blocks in one chunk (second one padded): widths 16 and 8 side by side
         out.append(_cfg("uint32", 1, (5, 8, 12), (8, 8, 5), concrete=478, cost=10, wall=2400, max_paths=2000))
     return out
